@@ -6,8 +6,8 @@ CONSTANTS
   MaxDepth = 8
   FileSeq <- Seq3
   MaxStmts = 3
-  GenKinds = {"use", "forward", "import", "loadcss"}
-  GenSpellings = {"plain", "dot", "dd", "ext"}
+  GenKinds = {"use", "forward"}
+  GenSpellings = {"plain", "ext"}
   DevChoices <- DevIdeal
   MaxFaultAt = 0
 INVARIANTS UrlsResolve LockDiscipline DepthBound LoopOnlyOnCycle NeverOverflow InitOnce OkOnlyAcyclic Emit
